@@ -2600,7 +2600,11 @@ rng_init(void *v, unsigned long x)
 	gsl_rng_default_seed = x;
 	if (rng)
 		gsl_rng_free(rng);
-	rng = gsl_rng_alloc(gsl_rng_env_setup());
+	{
+	const gsl_rng_type *type = gsl_rng_env_setup();
+	/* An unknown GSL_RNG_TYPE yields a null type: fall back to the default generator. */
+	rng = gsl_rng_alloc(type ? type : gsl_rng_mt19937);
+	}
 	}
 #endif
 
